@@ -259,10 +259,13 @@ Definition service_pods_filter (svcs : list obj) : filter :=
          end) (sort_objs svcs)).
 
 (* replicationcontroller.PodsFilter *)
+(* a replication controller's selector, or, lacking one, its template labels *)
+Definition rc_sel (sel tmpl : lmap) : lmap := match sel with [] => tmpl | _ => sel end.
+
 Definition rc_pods_filter (srcs : list obj) : filter :=
   FOr (map (fun s =>
          match o_spec s with
-         | SRC sel _ => mk_labels sel
+         | SRC sel tmpl => mk_labels (rc_sel sel tmpl)
          | _ => mk_labels []
          end) (sort_objs srcs)).
 
